@@ -67,6 +67,15 @@ func (g *anteG) block() {
 }
 
 func (g *anteG) tx(signers, payer, fee string, gas uint64, msgs string) {
+	if g.r.P(1, 12) {
+		// a fee granter, which is a field nobody signs for: the validator's operator, the payer itself, or anybody
+		gr := rng.Pick(g.r, append(append([]string{}, accs[:6]...), "o0", "o1", "o2", "o3", "o4"))
+		if payer != "-" && g.r.P(1, 3) {
+			gr = payer
+		}
+		g.emit("tx signers=%s payer=%s granter=%s fee=%s gas=%d msgs=%s", signers, payer, gr, fee, gas, msgs)
+		return
+	}
 	g.emit("tx signers=%s payer=%s fee=%s gas=%d msgs=%s", signers, payer, fee, gas, msgs)
 }
 
